@@ -69,7 +69,9 @@ func (o Options) String() string {
 }
 
 // All enables every option.
-func All(buf uint32) Options { return Options{SysEx: true, TimeCode: true, ActiveSense: true, BufSize: buf} }
+func All(buf uint32) Options {
+	return Options{SysEx: true, TimeCode: true, ActiveSense: true, BufSize: buf}
+}
 
 // NewLoop opens a fresh port pair and starts listening through midi.ListenTo.
 func NewLoop(o Options) *Loop {
